@@ -50,7 +50,7 @@ CLAIMED = {
  "C06": dict(text="Full on the model for linear alternatives: C06_fits_iff (the decidable 'fits' is exactly: some instance of the alternative is a supertype of the argument), C06_match3_eliminates "
         "(the three-valued matcher answers 'definitely not' exactly when the argument does not fit), C06_filter_keeps_fitting / C06_accept_iff_fits_filter / C06_violation_iff_no_fit (the elimination "
         "constraint is violated iff no alternative fits), C06_bounded_var* (the base-type case through the variable's bounds, repaired D3/D22), C06_fits_iff_needs_linear (counterexample for non-linear "
-        "alternatives). The unique-fit result and the 'between' clause are decided by correspondence + oracle on all concrete arguments of depth <= 2. Beyond linear alternatives (Props/C06Gen.lean, C06g_*, 26): exact characterisation of what fulfill keeps, acceptance iff fit for unipolar alternatives (nested, several variables, repeated variables of one polarity), uniqueness / between clauses for one fulfill call; bipolar alternatives (a variable in both polarities, outside the property's quantifier) are accepted without a fit: proved on the model, replayed on the implementation, recorded in DESIGN.md. Through a whole application (Props/C06Apply.lean, C06a_*, 17): for x ** r(x) [x << ts] with concrete pairwise incomparable alternatives and a compound argument a, instantiate + apply succeeds iff some alternative fits a (C06a_accept_iff_fit), fails with exactly ConstraintViolation otherwise (C06a_reject_is_violation), the whole run is one equation (C06a_run_eq); unique fit: x is bound to the ARGUMENT (not the alternative), the record a << [t] is fulfilled and the result is r[x:=a] (C06a_unique_fit); several fits: the constraint stays attached and pending with exactly the fitting alternatives (C06a_several_fit). Nullary arguments: kernel-checked runs only. Outside the property's quantifier, proved and replayed on the code: with two arguments meeting the constrained variable acceptance depends on their order (x ** x ** x [x << {F(A), F(C)}]: [F(A), F(B)] accepted, [F(B), F(A)] SubtypeMismatch - the same without the constraint: a bare variable is bound to a compound argument exactly) and no join is taken (C06a_two_args_order_matters, C06a_two_base_args_no_join).",
+        "alternatives). The unique-fit result and the 'between' clause are decided by correspondence + oracle on all concrete arguments of depth <= 2. Beyond linear alternatives (Props/C06Gen.lean, C06g_*, 26): exact characterisation of what fulfill keeps, acceptance iff fit for unipolar alternatives (nested, several variables, repeated variables of one polarity), uniqueness / between clauses for one fulfill call; bipolar alternatives (a variable in both polarities, outside the property's quantifier) are accepted without a fit: proved on the model, replayed on the implementation, recorded in DESIGN.md. Through a whole application (Props/C06Apply.lean, C06a_*, 17): for x ** r(x) [x << ts] with concrete pairwise incomparable alternatives and a compound argument a, instantiate + apply succeeds iff some alternative fits a (C06a_accept_iff_fit), fails with exactly ConstraintViolation otherwise (C06a_reject_is_violation), the whole run is one equation (C06a_run_eq); unique fit: x is bound to the ARGUMENT (not the alternative), the record a << [t] is fulfilled and the result is r[x:=a] (C06a_unique_fit); several fits: the constraint stays attached and pending with exactly the fitting alternatives (C06a_several_fit). Nullary arguments and alternatives with their own variables (Props/C06ApplyBase.lean, C06b_*, 41): base-type argument accepted iff some alternative is Top or a base type above it (at most one in an antichain), refusal exactly ConstraintViolation, final store described; Bottom accepted with the constraint pending, Top refused; x << {F(b), G(c,d)} accepted iff the head matches, for every well-formed concrete argument; repeated variable G(b,b): accepted iff the components are comparable (no joins; G(A,C) refused with SubtypeMismatch although it fits with b := Top - proved, replayed on the code). Outside the property's quantifier, proved and replayed on the code: with two arguments meeting the constrained variable acceptance depends on their order (x ** x ** x [x << {F(A), F(C)}]: [F(A), F(B)] accepted, [F(B), F(A)] SubtypeMismatch - the same without the constraint: a bare variable is bound to a compound argument exactly) and no join is taken (C06a_two_args_order_matters, C06a_two_base_args_no_join).",
         technique="Lean 4 proof (polarity-indexed fits relation, fuel induction over the matcher) + model/implementation correspondence check",
         ref="6/C06"),
  "C07": dict(text="On the graph model: C07_queried_are_emitted / C07_membership_in_vocabulary (predicate names re-extracted from graph.py, query.py and the vocabulary on every run), C07_op_node, "
